@@ -34,6 +34,10 @@ LINES = [
     ("1home\t\tgopher.example.org\t70", ("link", "1", "home", "{B}/home", "gopher.example.org", 70)),
     ("  indented text", ("info", "indented text")),
     ("9binary\tfiles/a.bin", ("link", "9", "binary", "{B}/files/a.bin", None, None)),
+    # a line ends at the line feed and nowhere else: form feed, vertical tab, a lone CR, U+2028 and U+0085 are part of the text
+    ("Chapter one\x0cChapter two", ("info", "Chapter one\x0cChapter two")),
+    ("0Page\x0bbreak, soft\u2028return\tfile.txt", ("link", "0", "Page\x0bbreak, soft\u2028return", "{B}/file.txt", None, None)),
+    ("left\rright\x85end", ("info", "left\rright\x85end")),
 ]
 DIRS = [("/lotsa", "/lotsa"), ("/", ""), ("/a/b", "/a/b")]
 
@@ -117,7 +121,7 @@ def evaluate_prepare(ctx, H, prep, selector, lines, line_end=b"\n"):
 
     facts = {"self.selector": Const(selector)}
     w = Walker(prog, ctx.resolver, call_value=cv, store_hook=sh, expr_value=ev, assumptions=facts, sticky=set(facts), exact_loops=True,
-               unroll=len(script) + 3, max_paths=3000000,
+               unroll=len(script) + 3, max_paths=400000,
                inline=lambda fn, t, d: d < 3 and (t.bound_cls is not None or (fn.cls is None and fn.module is prep.module)) and fn.name not in ("getentry",))
     holder["w"] = w
     try:
